@@ -4,6 +4,7 @@ import (
 	"fmt"
 	"go/token"
 	"go/types"
+	"strings"
 
 	"golang.org/x/tools/go/ssa"
 )
@@ -33,6 +34,64 @@ func checkC03(e *Engine, r *Report) {
 	take := r.Anchor(pkgTA, "supply.takeCPUs")
 	if fShared == nil || fReserved == nil || allocCPU == nil || reserve == nil || allocShared == nil || allocRes == nil || take == nil {
 		return
+	}
+	// ---- rule 1b: an admitted fraction is entered in the ledger ------------------------------------------
+	for _, t := range []struct {
+		f        *types.Var
+		cls      string
+		notCls   string
+		capacity *ssa.Function
+	}{{fShared, "cpuNormal", "cpuReserved", allocShared}, {fReserved, "cpuReserved", "cpuNormal", allocRes}} {
+		t := t
+		clsK, _ := e.TypesPkg(pkgTA).Scope().Lookup(t.cls).(*types.Const)
+		notK, _ := e.TypesPkg(pkgTA).Scope().Lookup(t.notCls).(*types.Const)
+		enabled := func(cond ssa.Value) (bool, bool) {
+			b, ok := cond.(*ssa.BinOp)
+			if !ok {
+				return false, false
+			}
+			// class tests
+			if b.Op == token.EQL || b.Op == token.NEQ {
+				if isConstEq(b.Y, clsK) {
+					return true, b.Op == token.EQL
+				}
+				if isConstEq(b.Y, notK) {
+					return true, b.Op == token.NEQ
+				}
+			}
+			// capacity suffices
+			isA := func(v ssa.Value) bool { call, ok := v.(*ssa.Call); return ok && e.IsCallTo(call, fset(t.capacity)) }
+			if isA(b.X) {
+				switch b.Op {
+				case token.LSS, token.LEQ:
+					return true, false
+				case token.GTR, token.GEQ:
+					return true, true
+				}
+			}
+			// a fraction is requested: `fraction > 0` where fraction derives from the request's fraction field
+			if isConstInt(b.Y, 0) {
+				isFrac := false
+				Origins(b.X, func(v ssa.Value) bool {
+					if f, _ := loadedField(v); f != nil && f.Name() == "fraction" {
+						isFrac = true
+					}
+					return isFrac
+				})
+				if isFrac {
+					switch b.Op {
+					case token.GTR, token.NEQ:
+						return true, true
+					case token.EQL, token.LEQ:
+						return true, false
+					}
+				}
+			}
+			return false, false
+		}
+		r.MustPass("R1:fraction-entered-in-ledger@"+t.f.Name(), "R5 ledger symmetry (shared with C09)", "whenever AllocateCPU admits a "+t.cls+" request with a fraction (capacity suffices), "+t.f.Name()+" is increased on every successful return", allocCPU, nil,
+			func(ret *ssa.Return) bool { return e.maySucceed(ret) && !isNilConstV(ret.Results[0]) },
+			func(in ssa.Instruction) bool { st, ok := in.(*ssa.Store); return ok && fieldOfAddr(st.Addr) == t.f }, enabled)
 	}
 	// ---- rule 1 -------------------------------------------------------------------------
 	// "capacity insufficient": any comparison `Allocatable…CPU() < X` is true, `> X` / `>= X` false
@@ -623,5 +682,62 @@ func checkC03(e *Engine, r *Report) {
 			r.Check("R5:shares-amount", "data-flow cpu.shares", "the encoded amount is the grant's portion, or 1000 per exclusive CPU when there is no portion", e.InstrPos(c), ag, okSrc && any, fmt.Sprint(srcs), true)
 		}
 		r.MinInstances("SetCPUShares in applyGrant", n, 1)
+		// the "1000 per exclusive CPU" replacement applies exactly when the portion is zero: with a non-zero portion the
+		// multiplication is not what reaches SetCPUShares
+		for _, c := range allCallsOfObj(ag, setShares) {
+			var ms *ssa.Call
+			Origins(callArgs(c)[1], func(v ssa.Value) bool {
+				if c2, ok := v.(*ssa.Call); ok && callObj(c2.Common()) != nil && strings.HasSuffix(callObj(c2.Common()).Name(), "MilliCPUToShares") {
+					ms = c2
+					return true
+				}
+				if c2, ok := v.(*ssa.Call); ok {
+					if u, ok := c2.Common().Value.(*ssa.UnOp); ok {
+						if g, ok := u.X.(*ssa.Global); ok && g.Name() == "MilliCPUToShares" {
+							ms = c2
+							return true
+						}
+					}
+				}
+				return false
+			})
+			if ms == nil {
+				continue
+			}
+			portionNonZero := func(cond ssa.Value) (bool, bool) {
+				b, ok := cond.(*ssa.BinOp)
+				if !ok || !isConstInt(b.Y, 0) {
+					return false, false
+				}
+				// the tested amount is the (phi of the) portion
+				isPortion := false
+				Origins(b.X, func(v ssa.Value) bool {
+					if c2, ok := v.(*ssa.Call); ok && callObj(c2.Common()) != nil && (callObj(c2.Common()).Name() == "SharedPortion" || callObj(c2.Common()).Name() == "ReservedPortion") {
+						isPortion = true
+					}
+					return isPortion
+				})
+				if !isPortion {
+					return false, false
+				}
+				switch b.Op {
+				case token.EQL, token.LEQ:
+					return true, false
+				case token.NEQ, token.GTR:
+					return true, true
+				}
+				return false, false
+			}
+			var amount ssa.Value = ms.Common().Args[0]
+			usesMul := false
+			OriginsUnder(ag, amount, portionNonZero, func(v ssa.Value) bool {
+				if b, ok := v.(*ssa.BinOp); ok && b.Op == token.MUL {
+					usesMul = true
+					return true
+				}
+				return false
+			})
+			r.Check("R5:shares-exclusive-count-only-without-portion", "data-flow cpu.shares", "with a non-zero granted portion the CPU weight encodes that portion; 1000 per exclusive CPU is used only when the portion is zero", e.InstrPos(c), ag, !usesMul, "", true)
+		}
 	}
 }
